@@ -516,6 +516,55 @@ func setSemantics(r *Repo, n, k, k2 int) (map[string]string, int, error) {
 		}
 	})
 	found := map[string]string{}
+	// the int32 limits: lengths that do not fit 32 bits, the largest code point
+	func() {
+		se, _ := newSetExec(r)
+		defer func() {
+			if p := recover(); p != nil {
+				switch x := p.(type) {
+				case nilDeref:
+					found["Len panics"] = "at the int32 limits: nil dereference at " + x.pos
+				case goPanic:
+					found["Len panics"] = "at the int32 limits: " + x.msg + " at " + x.pos
+				case undecided:
+					found["undecided"] = x.msg
+				default:
+					panic(p)
+				}
+			}
+		}()
+		const maxI = int64(1<<31 - 1)
+		type probe struct {
+			name string
+			mk   func() Value
+			len  int64
+		}
+		probes := []probe{
+			{"NewSet().AddRange(0,MaxInt32)", func() Value { s := se.fresh(); se.call(s, "AddRange", int64(0), maxI); return s }, maxI + 1},
+			{"NewSet().Complement(MaxInt32)", func() Value { return se.call(se.fresh(), "Complement", maxI) }, maxI + 1},
+			{"NewSet().AddRange(1,MaxInt32)", func() Value { s := se.fresh(); se.call(s, "AddRange", int64(1), maxI); return s }, maxI},
+			{"NewSet().Add(0).Complement(MaxInt32)", func() Value { s := se.fresh(); se.call(s, "Add", int64(0)); return se.call(s, "Complement", maxI) }, maxI},
+			{"NewSet().AddRange(0,MaxInt32-1).Add(MaxInt32)", func() Value {
+				s := se.fresh()
+				se.call(s, "AddRange", int64(0), maxI-1)
+				se.call(s, "Add", maxI)
+				return s
+			}, maxI + 1},
+		}
+		for _, pr := range probes {
+			s := pr.mk()
+			if got, _ := se.call(s, "Len").(int64); got != pr.len {
+				found["Len wrong"] = fmt.Sprintf("%s.Len() = %d, the set has %d elements", pr.name, got, pr.len)
+			}
+			if got, _ := se.call(s, "Has", maxI).(bool); !got {
+				found["Has wrong"] = fmt.Sprintf("%s.Has(MaxInt32) = false", pr.name)
+			}
+			cp := se.call(s, "Copy")
+			if eq, _ := se.call(cp, "Equal", s).(bool); !eq {
+				found["Equal wrong"] = fmt.Sprintf("%s is not Equal to its Copy", pr.name)
+			}
+		}
+	}()
 	for _, rs := range out {
 		for _, x := range rs {
 			if _, ok := found[x.key]; !ok {
